@@ -586,13 +586,21 @@ def sweep(tier='quick', force=False, only=None):
     basic = [(t, n) for t, n in eligible_basic() if tier != 'quick' or len(M.names_of(xsdspec.MODELS[t])) < 11]     # the big ones only in the thorough tier
     tasks = [(t, n, tier) for t, n in eligible() + basic if only is None or t in only]
     tasks.sort(key=lambda a: -len(xsdspec.alphabet(xsdspec.MODELS[a[0]])))
-    ctx = mp.get_context('fork')
+    from .par import run_tasks
     res = []
     t0 = time.time()
-    with ctx.Pool(processes=min(16, os.cpu_count() or 4), maxtasksperchild=1) as pool:
-        canary_ok = pool.apply(canary, (None,))
-        for r in pool.imap_unordered(task, tasks, chunksize=1):
-            res.append(r)
+    hard = 200 if tier == 'quick' else 2700
+
+    def timed_out(t):
+        return dict(tkey=t[0], name=t[1], obligations=[dict(oid=f'M/budget/{t[0]}', props=['C01', 'C06', 'C07', 'C10', 'C12', 'C19'], status='undecided',
+                                                             detail='type exceeds the hard wall-clock budget of the proved layer in this tier (worker killed)')], seconds=hard)
+    cres = run_tasks(canary, [None], nproc=1, hard_timeout=120)
+    canary_ok = bool(cres and cres[0][1] == 'ok' and cres[0][2])
+    for t, kind, val in run_tasks(task, tasks, hard_timeout=hard, on_timeout=timed_out):
+        if kind in ('ok', 'timeout'):
+            res.append(val)
+        else:
+            res.append(dict(tkey=t[0], name=t[1], obligations=[dict(oid=f'M/crash/{t[0]}', props=['C01', 'C06', 'C07', 'C10', 'C12', 'C19'], status='crash', detail=str(val))], seconds=0))
     out = dict(tier=tier, key=key, wall_s=round(time.time() - t0, 1), canary_ok=canary_ok, types=sorted(res, key=lambda r: r['tkey']))
     if only is None:
         tmp = path + f'.{os.getpid()}'
